@@ -28,7 +28,7 @@ A_COMMON = [
     'A-N: results hold for the instantiated component counts N listed in coverage.units only (the macro is uniform in N, but no N is claimed that was not run).',
     'A-rustc: ownership, borrowing and Drop glue of safe code are as rustc defines them.',
     'R-rules: the verified text is /repo\'s text after the named mechanical rules of DESIGN.md section 3 (counts per run in coverage.extraction_rules_applied); '
-    'not extracted: Display/Debug impls, raw-pointer iterators (iter/iter_mut), RefMut-guard accessors (borrow_slice_mut_*, borrow_component_mut_*), reference transmutes.',
+    'not extracted: Display/Debug impls, raw-pointer iterators (iter/iter_mut), reference transmutes. RefCell guards (Ref, RefMut): functional value at acquisition only, the dynamic borrow flag and writes through a RefMut guard are not modelled.',
 ]
 
 TB_COMMON = ['Verus 0.2026.09.13 (rust_verify, vstd)', 'Z3 (bundled with Verus)', 'rustc 1.98.1 front end',
@@ -43,7 +43,7 @@ A_WORLD = [
     'Universality over world declarations is not claimed.',
     'R-world: the instantiated text is verified after the named rules of gv/worldgen.py (R-tag marker types because `struct A { data: StorageN<A, ..> }` is a cyclic self-reference for Verus; '
     'R-split of trait Archetype / World into acyclic layers with the default-method bodies verbatim; R-inherent; R-optmap; R-constpat; R-clone; R-priv; R-unchecked; R-implarg; R-bound). '
-    'Not extracted from the generated code: functions returning impl Iterator over raw-pointer iterators (iter, iter_mut), functions returning RefMut, Default impls, '
+    'Not extracted from the generated code: functions returning impl Iterator over raw-pointer iterators (iter, iter_mut), Default impls, '
     'the generic forwarding TryFrom<&Entity<A>> / TryFrom<&mut ..> impls of the hidden __WorldSelectTotal enum, the macro_rules wrappers.',
     'A-std: core\'s reflexive `impl<T> From<T> for T` is the identity (axiom_into_reflexive in contracts/prelude.rs; used where generated code passes an already built Components struct through `impl Into<Components>`).',
 ]
@@ -177,7 +177,7 @@ def meta_for(prop):
     if prop in TEMPLATE_PROPS or prop == 'C17':
         m['assumptions'] = list(A_COMMON) + [
             A_WORLD[0], A_WORLD[1],
-            'R-tmpl: the ecs_find! / ecs_find_borrow! / ecs_iter! / ecs_iter_borrow! / ecs_iter_destroy! templates are instantiated for ONE schema (two archetypes over Storage2) and ONE parameter list (Entity<_>, EntityDirect<_>, &mut CompX; the *_borrow! forms with &CompX, because RefMut accessors are outside the abstraction); the user closure is an unspecified stand-in whose `requires` are the obligations on its arguments; universality over programs is not claimed.',
+            'R-tmpl: the ecs_find! / ecs_find_borrow! / ecs_iter! / ecs_iter_borrow! / ecs_iter_destroy! templates are instantiated for ONE schema (two archetypes over Storage2) and ONE parameter list (Entity<_>, EntityDirect<_>, &mut CompX; the *_borrow! forms with &CompX and with &mut CompX); the user closure is an unspecified stand-in whose `requires` are the obligations on its arguments; universality over programs is not claimed.',
         ]
     if prop in WORLD_PROPS or prop == 'C19':
         for a in A_WORLD:
